@@ -411,10 +411,18 @@ def exec_step(env, step):
             else:
                 q = env.funcs[step['fn']](E, *[dec(env, a) for a in step['args']])
             for op in step.get('ops', ()): q = apply_op(env, q, op, E)
-            if step.get('slot_to') is not None: env.queries[step['slot_to']] = q
-            if step.get('post') is None: return ('ok', 'O', 'built')
+            probe = None
+            if step.get('slot_to') is not None:
+                env.queries[step['slot_to']] = q
+                # a stored query is used by later steps: compare what it IS (SQL text + arguments), not only what this
+                # step fetched from it, so that a silent difference is seen where it arises
+                try:
+                    sql, arguments = q._construct_sql_and_arguments()[:2]
+                    probe = [sql, norm(list(arguments.values()) if isinstance(arguments, dict) else arguments)]
+                except Exception as ex: probe = ['exc', type(ex).__name__]
+            if step.get('post') is None: return ('ok', 'O', 'built', probe)
             tag, val = apply_post(env, q, step['post'], E)
-            return ('ok', tag, val)
+            return ('ok', tag, val, probe)
         if k == 'qr_make':
             q = env.queries.get(step['slot'])
             if q is None: return ('ok', 'O', 'no-such-slot')
@@ -517,6 +525,7 @@ def canon(res):
     if res[0] == 'exc': return res
     tag, val = res[1], res[2]
     if tag == 'U' and isinstance(val, list): val = unordered(val)
+    if len(res) > 3 and res[3] is not None: return ('ok', val, res[3])
     return ('ok', val)
 
 # ---------------------------------------------------------------------------------------------------------------
@@ -1035,6 +1044,20 @@ def run(ctx):
         state = {'mirror': mirror_initial(), 'committed': mirror_initial()}
         mism = []
 
+        def track(step):
+            # what the warm process has seen so far (feeds the finding predicates); independent of judgement
+            k = step['k']
+            if k == 'adapt':
+                warm_adapted.setdefault(step['style'], []).append(step['sql'])
+                first_use.setdefault(('adapt', step['style'], step['sql']), step)
+            if k == 'chain':
+                for op in step.get('ops') or ():
+                    if op[0] in ('filter_str', 'where_str', 'order_str'):
+                        warm_strops.setdefault(op[1], set()).add(base_vars_of(step, None))
+                        if step.get('slot_from') is None:
+                            first_use.setdefault(('strop', op[1], base_vars_of(step, None)), step)
+            if k == 'qr_mutate' and step.get('res') in warm.results: warm.mutated_results.add(step['res'])
+
         def on_step(si, ti, step, r):
             if ti == 0:            # new session: uncommitted changes of the previous one were rolled back
                 state['mirror'] = copy.deepcopy(state['committed']); state['ref_off'] = state.get('ref_off_committed', False)
@@ -1051,6 +1074,7 @@ def run(ctx):
             if state['session_tainted'] or state.get('history_tainted') or any(x in state['tainted'] for x in reads):
                 ctx.count('outcome.not_judged_downstream_of_disagreement')
                 state['tainted'].update(writes)
+                track(step)
                 warm.event_log.append(k)
                 state['ref_off'] = True                       # the mirror is not maintained for unjudged steps
                 if k == 'commit': state['ref_off_committed'] = True
@@ -1078,23 +1102,15 @@ def run(ctx):
                     ctx.count('outcome.python_reference_skipped_pony_raised'); state['ref_off'] = True
                 elif ref is not None:
                     ctx.count('outcome.python_reference_checked')
-                    if ref != r and not (r[0] == 'ok' and ref[0] == 'ok' and json.dumps(ref[1]) == json.dumps(r[1])):
+                    if ref != r[:2] and not (r[0] == 'ok' and ref[0] == 'ok' and json.dumps(ref[1]) == json.dumps(r[1])):
                         ctx.count('outcome.python_reference_differs')
                         ctx.violation({'history': sessions, 'session': si, 'step': ti, 'spec': step, 'pony_warm_and_cold': r,
                                        'python_reference': ref}, mechanism='differs-from-python-reference')
             # after judging: update trackers
-            if k == 'adapt':
-                warm_adapted[step['style']].append(step['sql'])
-                first_use.setdefault(('adapt', step['style'], step['sql']), step)
-            if k == 'chain':
-                for op in step.get('ops') or ():
-                    if op[0] in ('filter_str', 'where_str', 'order_str'):
-                        warm_strops.setdefault(op[1], set()).add(base_vars_of(step, None))
-                        if step.get('slot_from') is None:
-                            first_use.setdefault(('strop', op[1], base_vars_of(step, None)), step)
-                if step.get('post') is not None and (r == want or sig not in warm.last_exec): warm.last_exec[sig] = (len(warm.event_log), r)
+            track(step)
+            if k == 'chain' and step.get('post') is not None and (r == want or sig not in warm.last_exec):
+                warm.last_exec[sig] = (len(warm.event_log), r)
             if k == 'strq' and (r == want or sig not in warm.last_exec): warm.last_exec[sig] = (len(warm.event_log), r)
-            if k == 'qr_mutate' and step['res'] in warm.results: warm.mutated_results.add(step['res'])
             warm.event_log.append(k)
             if k in ('set', 'create', 'delete', 'bulk_delete', 'raw_dml'):
                 if r[0] == 'ok': mirror_apply(step, state['mirror'])
